@@ -560,6 +560,10 @@ def check_kani(prop, tier, seed, only=None, jobs=None, extra_results=None):
             violations.append((h, real_failed, rp, "solver counterexample under the harness's environment stubs (native replay not meaningful)"))
         elif extraction and not is_unwind_only:
             violations.append((h, real_failed, rp, "decided by the solver; " + extraction + ", so no native replay"))
+        elif pb and rep_info and rep_info.get("dev") == "error" and rep_info.get("release") == "error" and not is_unwind_only:
+            # the solver decided it and the playback test could not be built / run at all (infrastructure, not a passing
+            # replay): reported with that caveat rather than dropped
+            violations.append((h, real_failed, rp, "decided by the solver; the native replay could not be executed (build/run error), see the replay file"))
         elif memsafe and not is_unwind_only:
             violations.append((h, real_failed, rp, "memory-safety class (ub-only: CBMC pointer check; native run need not crash)"))
         else:
